@@ -19,14 +19,25 @@ type Tape struct {
 	rec    []uint32
 	sig    uint64
 	limit  int
+
+	// CryptoSeed seeds crypto/rand for the run (testing/cryptotest); it is a
+	// function of (seed, run index) only, so that a shrunk tape replays with
+	// the same key material and therefore the same record sizes.
+	CryptoSeed uint64
+}
+
+// CryptoSeedFor derives the crypto seed of run idx under seed.
+func CryptoSeedFor(seed, idx uint64) (cs uint64) {
+	return (seed+1)*0x9e3779b97f4a7c15 ^ (idx+1)*0xbf58476d1ce4e5b9
 }
 
 // NewTape returns a generating tape for (seed, idx).
 func NewTape(seed uint64, idx uint64) (t *Tape) {
 	return &Tape{
-		rng:   rand.NewPCG(seed^0x9e3779b97f4a7c15, idx*0xbf58476d1ce4e5b9+1),
-		sig:   14695981039346656037,
-		limit: 200_000,
+		rng:        rand.NewPCG(seed^0x9e3779b97f4a7c15, idx*0xbf58476d1ce4e5b9+1),
+		sig:        14695981039346656037,
+		limit:      200_000,
+		CryptoSeed: CryptoSeedFor(seed, idx),
 	}
 }
 
@@ -72,12 +83,17 @@ func (t *Tape) Choose(n int, label string) (v int) {
 }
 
 // Chance returns true with probability num/den; false is the boring default.
-func (t *Tape) Chance(num, den int, label string) (ok bool) {
+func (t *Tape) Chance(num, den int, label ...string) (ok bool) {
 	if num <= 0 {
 		return false
 	}
 
-	v := t.Choose(den, label)
+	l := "chance"
+	if len(label) > 0 {
+		l = label[0]
+	}
+
+	v := t.Choose(den, l)
 
 	return v >= den-num
 }
